@@ -3,7 +3,10 @@
 Metamorphic + differential.  A chart (all five games) is built twice through the public list classes: once in
 the generated row order and once with every list permuted the way the library itself produces unsorted lists
 (unsorted construction, `append` without sort one item at a time, concatenation of two lists, reverse sort,
-`iloc` re-ordering that keeps the row labels).  Each listed operation f is run on both by the REAL code and
+`iloc` re-ordering that keeps the row labels) or, in half of the cases, reached through an ordinary list HISTORY
+(`build_history`: sorted pieces concatenated, a sorted list filtered / cut at a time / rotated by slices and
+re-appended, reversed by a slice, a sorted list that then received items, columns re-assigned in place after a
+sort; then handed on through deepcopy / another chart's attribute / the constructor / a full slice).  Each listed operation f is run on both by the REAL code and
 the two results are compared under the relation of the property (`Spec/Perm.lean`, evaluated by the driver):
 
   dominant_bpm / scroll_speed (values), sv_normalize / rate / converters / full_ln (multisets of rows),
@@ -29,7 +32,11 @@ THOROUGH_BUDGET_S = 900
 RULE = ("charts of the five games (0-24 hits, 0-8 holds, 1-20 tempo points (thorough: up to 40), 0-16 SVs; chords, notes on tempo "
         "points, SVs coinciding with tempo points / each other, repeated bpm values, exact duplicates of rows; all times "
         "dyadic, tempos from the exactly representable set, so every comparison is an equality) x a permutation of every "
-        "list produced by one of construct / append / concat / revsort / iloc x one of 11 claims (dominant, normalize, "
+        "list produced by one of construct / append / concat / revsort / iloc or (half of the lists) by a list history "
+        "h:<base>+<post>*: base in sorted pieces concatenated (also re-sorted pieces) / sorted list filtered by a mask and "
+        "re-appended / cut with after()+before() / reversed by [::-1] / rotated by two slices / sorted then items appended / "
+        "columns re-assigned in place after sorted(); posts in deepcopy / assigned to another chart and read back (also "
+        "through the chart's deepcopy) / TimedList(list) / [:]  x one of 11 claims (dominant, normalize, "
         "speed, full_ln, rate, convert (17 entry points), hitsound, write_osu, write_qua, write_sm, write_bms); writer "
         "charts are laid out on a beat grid with tempo changes on measure lines; a small share of cases carries a tie "
         "that makes the result inherently order dependent (two different tempo points at one time, different SVs at one "
@@ -52,6 +59,10 @@ TRUSTED_EXTRA = ["adapters of harness/props/c08.py, c13.py, c06.py reused for sn
 GAMES = ["osu", "qua", "sm", "bms", "o2j"]
 SV_GAMES = ["osu", "qua"]
 HOWS = ["construct", "append", "concat", "revsort", "iloc"]
+# row orders reached through ordinary list histories: "h:<base>[+<post>]*" (see build_history)
+H_BASES = ["sorted_concat", "filter_reappend", "after_before", "reverse_slice", "rotate", "sorted_items", "inplace",
+           "resorted_concat"]
+H_POSTS = ["deepcopy", "via_chart", "via_chart_copy", "ctor", "slice_all"]
 LISTS = ["hits", "holds", "bpms", "svs"]
 E_BPMS = [60, 75, 100, 120, 125, 150, 160, 200, 240, 250, 300, 375, 480, 37.5, 62.5, 187.5]
 E_MULTS = [0.25, 0.5, 0.75, 1, 1.25, 1.5, 2, 3, 4, 0.125]
@@ -117,6 +128,8 @@ def build_list(game, kind, rows, how=None, pseed=0):
     items = _items(game, kind, rows)
     if how is None or not items:
         return Cls(items)
+    if how.startswith("h:"):
+        return build_history(game, kind, items, how, pseed)
     p = perm_of(pseed, kind, len(items))
     pit = [items[i] for i in p]
     if how == "construct":
@@ -135,6 +148,84 @@ def build_list(game, kind, rows, how=None, pseed=0):
     if how == "iloc":
         return Cls(Cls(items).df.iloc[p])
     raise ValueError(how)
+
+
+def parse_how(how):
+    """a history `h:<base>+<post>+...` -> (base, posts) or None"""
+    if not isinstance(how, str) or not how.startswith("h:"):
+        return None
+    base, *posts = how[2:].split("+")
+    if base not in H_BASES or len(posts) > 3 or any(q not in H_POSTS for q in posts):
+        return None
+    return base, posts
+
+
+def build_history(game, kind, items, how, pseed):
+    """the same items as a list that reached its row order the way client code does: pieces that were each sorted and
+    then concatenated, a sorted list filtered / cut at a time / sliced and put together again, reversed by a slice,
+    a sorted list that received more items, columns re-assigned in place after a sort; then handed on through
+    deepcopy / another chart's attribute / the list constructor / a full slice.  All choices derive from pseed."""
+    K = _cls(game)
+    Cls = K[kind]
+    base, posts = parse_how(how)
+    rr = random.Random(f"{pseed}:{kind}:{how}")
+    n = len(items)
+    p = perm_of(pseed, kind, n)
+    pit = [items[i] for i in p]
+    if base in ("sorted_concat", "resorted_concat"):
+        k = rr.choice([2, 2, 3])
+        pieces = [[] for _ in range(k)]
+        for it in pit:
+            pieces[rr.randrange(k)].append(it)
+        lst = None
+        for pc in pieces:
+            if not pc:
+                continue
+            piece = Cls(pc).sorted()
+            if base == "resorted_concat":
+                piece = piece.sorted(reverse=True).sorted()
+            lst = piece if lst is None else lst.append(piece)
+    elif base == "filter_reappend":
+        import numpy as np
+        full = Cls(pit).sorted()
+        mask = np.array([rr.random() < 0.5 for _ in range(n)], dtype=bool)
+        lst = full[mask].append(full[~mask])
+    elif base == "after_before":
+        full = Cls(pit).sorted()
+        t = float(rr.choice(full.df["offset"].tolist()))
+        lst = full.after(t).append(full.before(t, include_end=True))
+    elif base == "reverse_slice":
+        lst = Cls(pit).sorted()[::-1]
+    elif base == "rotate":
+        full = Cls(pit).sorted()
+        k = rr.randrange(n)
+        lst = full[k:].append(full[:k])
+    elif base == "sorted_items":
+        k = rr.randrange(1, n) if n > 1 else 1
+        lst = Cls(pit[:k]).sorted()
+        for it in pit[k:]:
+            lst = lst.append(it)
+    elif base == "inplace":
+        lst = Cls(items).sorted()
+        for c in list(lst.df.columns):
+            vals = lst.df[c].tolist()
+            lst.df[c] = [vals[i] for i in p]
+    else:
+        raise ValueError(how)
+    for q in posts:
+        if q == "deepcopy":
+            lst = lst.deepcopy()
+        elif q in ("via_chart", "via_chart_copy"):
+            m0 = K["map"]()
+            setattr(m0, kind, lst)
+            if q == "via_chart_copy":
+                m0 = m0.deepcopy()
+            lst = getattr(m0, kind)
+        elif q == "ctor":
+            lst = Cls(lst)
+        elif q == "slice_all":
+            lst = lst[:]
+    return lst
 
 
 META = dict(
@@ -249,8 +340,21 @@ def reordered(s1, s2):
     return any(s1[k] != s2[k] for k in LISTS)
 
 
+def how_tags(case):
+    out = set()
+    for k, v in case.get("how", {}).items():
+        h = parse_how(v)
+        if h is None:
+            out.add(f"{k}:{v}")
+        else:
+            out.add(f"{k}:history")
+            out.add(f"h:{h[0]}")
+            out.update(f"post:{q}" for q in h[1])
+    return sorted(out)
+
+
 def base_tags(case, s1, s2):
-    tags = [case["game"]] + sorted({f"{k}:{v}" for k, v in case.get("how", {}).items()})
+    tags = [case["game"]] + how_tags(case)
     if reordered(s1, s2):
         tags.append("reordered")
     n = len(s1["bpms"])
@@ -679,7 +783,7 @@ def run_hitsound(case, drv):
     from reamber.algorithms.osu.hitsound_copy import hitsound_copy
     src1, src2, ss1, ss2 = setup(case, "src")
     tgt1, tgt2, st1, st2 = setup(case, "tgt")
-    tags = ["osu"] + sorted({f"{k}:{v}" for k, v in case.get("how", {}).items()})
+    tags = ["osu"] + how_tags(case)
     if reordered(ss1, ss2) or reordered(st1, st2):
         tags.append("reordered")
     out = []
@@ -882,10 +986,33 @@ RUNNERS = dict(dominant=run_dominant, normalize=run_normalize, speed=run_speed, 
                write_sm=run_write_sm, write_bms=run_write_bms)
 
 
+def n15b_shape(case):
+    """predicate of the open finding N15b: on the permuted chart one note list is empty and the other is a ONE-row
+    list whose row labels are a descending RangeIndex (a one-row list reversed by `lst[::-1]`).  pandas (2.3.3)
+    raises `Shape of passed values is (1, n), indices imply (0, n)` when it concatenates these two frames, so
+    full_ln and hitsound_copy (pd.concat of the note frames) raise on such a chart although its row ORDER is that
+    of the plainly constructed one."""
+    import pandas as pd
+    try:
+        for which in (("src", "tgt") if case["claim"] == "hitsound" else ("chart",)):
+            m = build_map(case, which, True)
+            dfs = [m.hits.df, m.holds.df]
+            for a, b in (dfs, dfs[::-1]):
+                if len(a) == 0 and len(b) == 1 and isinstance(b.index, pd.RangeIndex) and b.index.step < 0:
+                    return True
+    except Exception:
+        pass
+    return False
+
+
 def run(case, drv):
     warnings.simplefilter("ignore")
     logging.disable(logging.WARNING)
-    return RUNNERS[case["claim"]](case, drv)
+    r = RUNNERS[case["claim"]](case, drv)
+    if not r["ok"] and r["kf"] is None and case["claim"] in ("full_ln", "hitsound") and n15b_shape(case):
+        r["kf"], r["dom"] = "N15b", False
+        r["tags"] = r["tags"] + ["one-row-descending-rangeindex-next-to-empty(N15b)"]
+    return r
 
 
 # ------------------------------------------------------------------------------------------ generators
@@ -1034,25 +1161,37 @@ def gen_hitsound(rng, tier):
     return src, tgt
 
 
-def gen_how(rng, game):
+def gen_one_how(rng, hist_p):
+    if rng.random() >= hist_p:
+        return rng.choice(HOWS)
+    posts = [rng.choice(H_POSTS) for _ in range(rng.choice([0, 0, 1, 1, 2]))]
+    return "h:" + "+".join([rng.choice(H_BASES)] + posts)
+
+
+def gen_how(rng, game, hist_p=0.5):
     style = rng.random()
     if style < 0.35:
-        h = rng.choice(HOWS)
+        h = gen_one_how(rng, hist_p)
         return {k: h for k in LISTS}
-    return {k: rng.choice(HOWS) for k in LISTS}
+    return {k: gen_one_how(rng, hist_p) for k in LISTS}
 
 
-def gen(rng, tier, i):
+def gen_search(rng, tier, i):
+    """the stream of the search for a failing input: the same charts, row orders mostly reached through histories"""
+    return gen(rng, tier, i, hist_p=0.85)
+
+
+def gen(rng, tier, i, hist_p=0.5):
     claim = rng.choice(["dominant", "dominant", "normalize", "speed", "speed", "full_ln", "full_ln", "rate", "convert",
                         "convert", "hitsound", "write_osu", "write_qua", "write_sm", "write_bms"])
     pseed = rng.randrange(1 << 30)
     if claim == "hitsound":
         src, tgt = gen_hitsound(rng, tier)
-        return dict(claim=claim, game="osu", pseed=pseed, how=gen_how(rng, "osu"), src=src, tgt=tgt, keys=7)
+        return dict(claim=claim, game="osu", pseed=pseed, how=gen_how(rng, "osu", hist_p), src=src, tgt=tgt, keys=7)
     if claim.startswith("write_"):
         game = claim.split("_")[1]
         chart, keys, bp = gen_grid_chart(rng, tier, game)
-        c = dict(claim=claim, game=game, pseed=pseed, how=gen_how(rng, game), chart=chart, keys=keys)
+        c = dict(claim=claim, game=game, pseed=pseed, how=gen_how(rng, game, hist_p), chart=chart, keys=keys)
         if game == "sm":
             c["sm_offset"] = min(bp, key=lambda p: F(p[0]))[0]
         return c
@@ -1072,7 +1211,7 @@ def gen(rng, tier, i):
     elif q < 0.1 and claim == "full_ln":
         ties = "note"
     chart, keys = gen_free_chart(rng, tier, game, ties)
-    c = dict(claim=claim, game=game, pseed=pseed, how=gen_how(rng, game), chart=chart, keys=keys)
+    c = dict(claim=claim, game=game, pseed=pseed, how=gen_how(rng, game, hist_p), chart=chart, keys=keys)
     if claim in ("normalize", "speed"):
         q = rng.random()
         c["override"] = R(Fr(rng.choice(E_BPMS))) if q < 0.3 else (R(0) if q < 0.34 else None)
@@ -1166,7 +1305,7 @@ def valid(case):
     try:
         if case["claim"] not in CLAIMS or case["game"] not in GAMES:
             return False
-        if not isinstance(case.get("pseed"), int) or any(case["how"].get(k) not in HOWS for k in LISTS):
+        if not isinstance(case.get("pseed"), int) or any(case["how"].get(k) not in HOWS and parse_how(case["how"].get(k)) is None for k in LISTS):
             return False
         if case["claim"] == "hitsound":
             return case["game"] == "osu" and all(
